@@ -14,7 +14,7 @@ static std::string case_text(const Case& c) { return dhex(c.dt) + " " + dhex(c.s
 static Case case_parse(const std::string& s) { std::istringstream i(s); std::string a, b, c; Case k; i >> a >> b >> c >> k.pop >> k.in_memory; k.dt = strtod(a.c_str(), 0); k.s_over_dt = strtod(b.c_str(), 0); k.t_over_s = strtod(c.c_str(), 0); return k; }
 
 static std::string g_obs;   // observable outputs of the current case (statistics without the wall-clock column, mesh files)
-struct SaveRec { unsigned file_number; std::vector<unsigned> ids; std::vector<size_t> nodes; std::vector<int> types; };
+struct SaveRec { unsigned file_number; std::vector<unsigned> ids; std::vector<size_t> nodes; std::vector<int> types; std::vector<size_t> faces; };
 struct StatRow { unsigned iteration; std::string id, type, area, volume, target_volume, pressure; };
 
 static std::vector<std::string> split(const std::string& s, char sep) { std::vector<std::string> o; std::string cur; for (char ch : s) { if (ch == sep) { o.push_back(cur); cur.clear(); } else cur += ch; } o.push_back(cur); return o; }
@@ -39,7 +39,7 @@ static std::string run_case(const Case& cs, long* iterations_out = nullptr, long
                 if (cs.pop == 3 && it == 7) for (auto& c : L) vanish(*c);
                 if (cs.pop == 4 && it == 12 && L.size() > 1) vanish(*L[1]);
                 if (it == 6) for (auto& c : L) c->division_volume_ = std::numeric_limits<double>::infinity(); }
-            else if (!strcmp(ph, "save")) { SaveRec r; r.file_number = s->file_number_; for (auto& c : s->cell_lst_) { r.ids.push_back(c->get_id()); r.nodes.push_back(c->get_nb_of_nodes()); r.types.push_back(c->get_cell_type()->global_type_id_); if (c->is_static() && c->get_nb_of_nodes() < c->get_node_lst().size()) g_static_with_free_slots_at_save++; } saves.push_back(r); }
+            else if (!strcmp(ph, "save")) { SaveRec r; r.file_number = s->file_number_; for (auto& c : s->cell_lst_) { r.ids.push_back(c->get_id()); r.nodes.push_back(c->get_nb_of_nodes()); r.faces.push_back(c->get_nb_of_faces()); r.types.push_back(c->get_cell_type()->global_type_id_); if (c->is_static() && c->get_nb_of_nodes() < c->get_node_lst().size()) g_static_with_free_slots_at_save++; } saves.push_back(r); }
             else if (!strcmp(ph, "stats") || !strcmp(ph, "final_stats")) { bool recorded = !strcmp(ph, "final_stats") || s->iteration_ % 50 == 0; if (recorded) for (auto& c : s->cell_lst_) { StatRow r; r.iteration = s->iteration_; r.id = format_number(c->get_id(), "%d"); r.type = format_number((int)c->get_cell_type()->global_type_id_, "%d"); r.area = format_number(c->get_area(), "%.3e"); r.volume = format_number(c->get_volume(), "%.3e"); r.target_volume = format_number(c->get_target_volume(), "%.3e"); r.pressure = format_number(c->get_pressure(), "%.3e"); stats.push_back(r); } }
             else if (!strcmp(ph, "end")) { iterations++; expected_time += cs.dt; double t = s->time_integrator_ptr_->get_simulation_time(); if (t != expected_time && err.empty()) { char b[200]; snprintf(b, sizeof b, "simulated-time-is-not-the-sum-of-the-time-steps: after %ld iterations %.17g expected %.17g", iterations, t, expected_time); err = b; } }
         };
@@ -68,7 +68,12 @@ static std::string run_case(const Case& cs, long* iterations_out = nullptr, long
         size_t tot = 0; for (size_t n : r.nodes) tot += n; if (P.pts.size() != 3 * tot) { snprintf(buf, sizeof buf, "file-%u-has-%zu-points-but-the-population-had-%zu-nodes", k, P.pts.size() / 3, tot); return buf; }
         auto& idf = P.fields["cell_id"]; auto& tyf = P.fields["cell_type_id"]; if (idf.size() != r.ids.size() || tyf.size() != r.ids.size()) return "file-" + std::to_string(k) + "-cell_id-or-cell_type_id-array-missing";
         for (size_t i = 0; i < r.ids.size(); i++) if (atol(idf[i].c_str()) != (long)r.ids[i] || atol(tyf[i].c_str()) != r.types[i]) { snprintf(buf, sizeof buf, "file-%u-cell-%zu-id-or-type-differs: id %s type %s expected %u %d", k, i, idf[i].c_str(), tyf[i].c_str(), r.ids[i], r.types[i]); return buf; }
-        vtk::Parsed PF; std::string e2 = vtk::tokenize(out + "/face_data/result_" + std::to_string(k) + ".vtk", PF, false); if (e2.rfind("unexpected-trailing-content", 0) != 0 && !e2.empty()) return "face-data-file-" + std::to_string(k) + "-malformed-" + e2; }
+        vtk::Parsed PF; std::string e2 = vtk::tokenize(out + "/face_data/result_" + std::to_string(k) + ".vtk", PF, false); if (e2.rfind("unexpected-trailing-content", 0) != 0 && !e2.empty()) return "face-data-file-" + std::to_string(k) + "-malformed-" + e2;
+        // the face-data file names, for every triangle, the cell that owns it: by its persistent id, in the order of the population
+        { size_t totf = 0; for (size_t n : r.faces) totf += n; if (PF.cells.size() != totf) { snprintf(buf, sizeof buf, "face-file-%u-describes-%zu-triangles-but-the-population-had-%zu", k, PF.cells.size(), totf); return buf; }
+          std::ifstream ff(out + "/face_data/result_" + std::to_string(k) + ".vtk"); std::vector<std::string> tk; std::string w; while (ff >> w) tk.push_back(w); size_t at = 0; while (at < tk.size() && tk[at] != "face_cell_id") at++;
+          if (at + 3 + totf > tk.size()) return "face-file-" + std::to_string(k) + "-face_cell_id-array-missing-or-short"; if (atol(tk[at + 2].c_str()) != (long)totf) { snprintf(buf, sizeof buf, "face-file-%u-face_cell_id-array-declares-%s-values-for-%zu-triangles", k, tk[at + 2].c_str(), totf); return buf; }
+          size_t j = at + 4; for (size_t ci = 0; ci < r.ids.size(); ci++) for (size_t fi = 0; fi < r.faces[ci]; fi++, j++) if (atol(tk[j].c_str()) != (long)r.ids[ci]) { snprintf(buf, sizeof buf, "face-file-%u-attributes-a-triangle-of-cell-%u-to-cell-%s: triangle %zu of the cell at place %zu (alive: %zu cells)", k, r.ids[ci], tk[j].c_str(), fi, ci, r.ids.size()); return buf; } } }
     // ---- statistics table
     if (!cs.in_memory) { std::ifstream f(out + "/simulation_statistics.csv"); if (!f) return "statistics-file-missing"; std::stringstream ss; ss << f.rdbuf(); stat_text = ss.str(); }
     std::vector<std::string> lines = split(stat_text, '\n');
@@ -89,7 +94,7 @@ static std::string run_case(const Case& cs, long* iterations_out = nullptr, long
 
 static void explore(Result& R) {
     const bool th = R.args.thorough(); long cases = 0, iters = 0, files = 0, rows = 0, unit = 0;
-    std::vector<double> dts = {0.1, 0.01, 0.3, 0.7, 1e-3, 1e-7, 1e-11, 0.125};   /* incl. a step far below the absolute tolerances in the code, and a binary-exact step (accumulated time lands exactly on the duration) */ std::vector<double> sdt = {1, 1.5, 2, 7.0 / 3.0, 3, 10}; std::vector<double> ts = {0.5, 1, 2.5, 3, 7};
+    std::vector<double> dts = {0.1, 0.01, 0.3, 0.7, 1e-3, 1e-7, 1e-11, 0.125};   /* incl. a step far below the absolute tolerances in the code, and a binary-exact step (accumulated time lands exactly on the duration) */ std::vector<double> sdt = {1, 1.5, 2, 7.0 / 3.0, 3, 10}; std::vector<double> ts = {0.5, 1, 2.5, 3, 5, 7};   /* 10 x 5: a run of exactly 50 iterations (the statistics cadence) */
     if (th) { sdt.push_back(25); ts.push_back(10); dts.push_back(0.07); }
     for (double dt : dts) for (double a : sdt) for (double b : ts) for (int pop = 0; pop < 6; pop++) for (int mem = 0; mem < 2; mem++) {
         if (!th && mem == 1 && pop != 0 && pop != 3) continue;
